@@ -614,8 +614,11 @@ def check_blocks(case):
                 model[-1].update(step["args"])
                 if "app_id" in step["args"] and apps[-1] is not None:
                     # which application an updated application block stops
-                    # is not specified: not asserted
-                    apps[-1] = "unspecified"
+                    # is not specified: not asserted (for every level at
+                    # which this very context object is entered)
+                    for lvl in range(len(model)):
+                        if model[lvl] is model[-1]:
+                            apps[lvl] = "unspecified"
             elif op == "exit":
                 if stack:
                     leave(False)
@@ -738,24 +741,24 @@ CLAUSES = [
                 "against the destination table and against the same call "
                 "with every argument explicit; non-trivial = nesting depth "
                 ">= 2 or unrelated context entries",
-           examples={"quick": 250, "thorough": 5000},
+           examples={"quick": 600, "thorough": 5000},
            shards={"quick": 8, "thorough": 16}),
     Clause("bmp-controller-methods", check_call, strategy=_strat("bmp"),
            rule="as above for the BMP controller; hosts keyed by (cabinet, "
                 "frame) and one by (cabinet, frame, board)",
-           examples={"quick": 150, "thorough": 3000},
+           examples={"quick": 400, "thorough": 3000},
            shards={"quick": 4, "thorough": 16}),
     Clause("context-blocks", check_blocks, strategy=strat_blocks,
            rule="histories of entering plain and application blocks, "
                 "updates, normal exits, exits by exception through 1-3 "
                 "levels and probe reads; non-trivial = nesting >= 2 or an "
                 "exceptional exit",
-           examples={"quick": 250, "thorough": 5000},
+           examples={"quick": 600, "thorough": 5000},
            shards={"quick": 4, "thorough": 16}),
     Clause("connections", check_conn, strategy=strat_conn,
            rule="12x12 / 24x12 (24x24) machines with drawn sets of working "
                 "Ethernet chips, with and without discover_connections, reads "
                 "from drawn chips; non-trivial = >= 2 connections discovered",
-           examples={"quick": 12, "thorough": 200},
+           examples={"quick": 40, "thorough": 200},
            shards={"quick": 4, "thorough": 16}),
 ]
